@@ -24,6 +24,8 @@ struct Cfg {
   bool mdl = false;
   std::string mdl_label = "e-";
   int vertex = 0; // 0 none, 1 unique point, 2 exhausted after the first event
+  int gun_n = 0;  // > 0: the user changed the gun's multiplicity (/gun/number n) before the run
+  int prev = -1;  // >= 0: index of a configuration the same action object ran first (then SetConfiguration to this one)
   std::string key() const
   {
     std::ostringstream s;
@@ -32,6 +34,8 @@ struct Cfg {
     if (emin > 0 || emax > 0) s << ":w" << emin << "-" << emax;
     if (mdl) s << ":mdl(" << mdl_label << ")";
     s << ":v" << vertex;
+    if (gun_n) s << ":gun" << gun_n;
+    if (prev >= 0) s << ":after" << prev;
     return s.str();
   }
 };
@@ -100,12 +104,8 @@ static Core core_run(const Cfg & c, int nevents, const std::set<std::string> & b
   return k;
 }
 
-static std::string run_cfg(const Cfg & c, const std::set<std::string> & bkg, const std::set<std::string> & dbd)
+static CI make_ci(const Cfg & c)
 {
-  const int NEV = 3;
-  std::vector<std::pair<std::string, std::string>> viol;
-  auto V = [&](const std::string & cls, const std::string & text) { if (viol.size() < 6) viol.push_back({c.key() + ":" + cls, text}); };
-  Core core = core_run(c, NEV, bkg, dbd);
   CI ci;
   ci.decay_category = c.category;
   ci.nuclide = c.nuclide;
@@ -122,12 +122,44 @@ static std::string run_cfg(const Cfg & c, const std::set<std::string> & bkg, con
     ci.mdl_cone_colatitude = 60.0;
     ci.mdl_cone_aperture = 10.0;
   }
+  return ci;
+}
+
+// configurations an action object may have run before it is re-configured (accepted with and without MDL, and refused ones)
+static std::vector<Cfg> predecessors()
+{
+  std::vector<Cfg> v;
+  { Cfg c; c.category = "dbd"; c.nuclide = "Se82"; c.seed = 5; c.mode = 1; c.level = 0; c.mdl = true; v.push_back(c); }
+  { Cfg c; c.category = "background"; c.nuclide = "Co60"; c.seed = 7; c.mdl = true; c.mdl_label = "gamma"; v.push_back(c); }
+  { Cfg c; c.category = "dbd"; c.nuclide = "Mo100"; c.seed = 9; c.mode = 4; c.level = 0; c.emin = 0.5; c.emax = 1.5; v.push_back(c); }
+  { Cfg c; c.category = "background"; c.nuclide = "Xx99"; c.seed = 3; v.push_back(c); }
+  { Cfg c; c.category = "dbd"; c.nuclide = "Mo100"; c.seed = 3; c.mode = 25; c.level = 0; v.push_back(c); }
+  return v;
+}
+
+static std::string run_cfg(const Cfg & c, const std::set<std::string> & bkg, const std::set<std::string> & dbd)
+{
+  const int NEV = 3;
+  std::vector<std::pair<std::string, std::string>> viol;
+  auto V = [&](const std::string & cls, const std::string & text) { if (viol.size() < 6) viol.push_back({c.key() + ":" + cls, text}); };
+  Core core = core_run(c, NEV, bkg, dbd);
+  CI ci = make_ci(c);
   G4RunManager::GetRunManager()->aborts = 0;
   long nprim = 0, nev_ok = 0;
   bool g4_refused = false;
   std::string g4_why;
   try {
-    PrimaryGeneratorAction action(ci, 0);
+    PrimaryGeneratorAction action(c.prev >= 0 ? make_ci(predecessors()[c.prev]) : ci, 0);
+    if (c.prev >= 0) {
+      // the same action object first serves another configuration (two events, outcome irrelevant), then is re-configured
+      for (int i = 0; i < 2; i++) {
+        G4Event ev0;
+        try { action.GeneratePrimaries(&ev0); } catch (std::exception &) {}
+      }
+      G4RunManager::GetRunManager()->aborts = 0;
+      action.SetConfiguration(ci);
+    }
+    if (c.gun_n > 0) action.GetParticleGun()->SetNumberOfParticles(c.gun_n);
     bxdecay0_g4::UniquePointVertexGenerator upv(G4ThreeVector(1.0, 2.0, 3.0));
     ExhaustingVertexGenerator exv;
     if (c.vertex == 1) action.SetVertexGenerator(upv);
@@ -269,6 +301,29 @@ int main(int argc, char ** argv)
             }
           }
         }
+  }
+  // the user touching the gun (/gun/number n) and re-configuration of one action object: on a sub-grid of accepted and
+  // refused requests
+  {
+    std::vector<Cfg> base;
+    for (const Cfg & c : cfgs)
+      if (c.seed > 0 && c.vertex != 2 && (c.category == "background" || (c.category == "dbd" && (c.mode == 1 || c.mode == 4 || c.mode == 25) && c.level == 0 && !(c.emin > c.emax)))
+          && (c.nuclide == "Co60" || c.nuclide == "Na22" || c.nuclide == "Xx99" || c.nuclide == "Mo100" || c.nuclide == "Cd106" || c.nuclide == "Zr96" || (full && c.seed == 1)))
+        base.push_back(c);
+    size_t npre = predecessors().size();
+    for (const Cfg & c : base) {
+      for (int n : {2, 3}) {
+        if (n == 3 && !full) continue;
+        Cfg g = c;
+        g.gun_n = n;
+        cfgs.push_back(g);
+      }
+      for (size_t p = 0; p < npre; p++) {
+        Cfg g = c;
+        g.prev = (int)p;
+        cfgs.push_back(g);
+      }
+    }
   }
   FILE * fo = fopen(out.c_str(), "w");
   vx::run_pool(cfgs.size(), 16, 300, [&](size_t i) { return run_cfg(cfgs[i], bkg, dbd); }, [&](size_t, const std::string & r) { fprintf(fo, "%s\n", r.c_str()); },
